@@ -90,7 +90,8 @@ def _parse_comments(tokens: TokenIterator):
     """
     metadata = {}
     while tokens.peek().type == 'COMMENT':
-        comment = tokens.next().text
+        # a line given with its terminator may leave a CR on the comment
+        comment = tokens.next().text.rstrip()
         while comment:
             comment, found, meta = comment.rpartition('::')
             if found:
